@@ -41,6 +41,7 @@ type Op struct {
 	Lt      int    `json:"lt,omitempty"`
 	Ordered bool   `json:"ordered,omitempty"`
 	Sync    bool   `json:"sync,omitempty"`
+	L       int    `json:"l,omitempty"` // lock identity: withlock: 0 = nil, 10*t+j = j-th driver mutex of set t; sync/reset: negative id of the mutex Synchronize allocates
 }
 
 type Case struct {
@@ -52,6 +53,9 @@ type Case struct {
 	WithLock bool   `json:"withlock,omitempty"`
 	Pre      []int  `json:"pre,omitempty"`
 	Threads  [][]Op `json:"threads,omitempty"`
+	SyncLoop bool   `json:"syncloop,omitempty"` // conc: one more goroutine calls Synchronize() in a loop
+	// lockid
+	Disturb []string `json:"disturb,omitempty"` // sync | withlock-other | withlock-same | withlock-nil, applied after WithLock(m)
 }
 
 // ---------------------------------------------------------------- comparison family (ids as in coq/Model/SetModel.v lt_of)
@@ -152,6 +156,8 @@ type ref struct {
 	ordered bool
 	forced  bool // became ordered through Sort on a populated unordered set
 	sync    bool
+	lock    int    // identity of the first mutex installed (0 = none): the slot is write-once
+	lockOp  string // the last Synchronize/WithLock call made on the set
 }
 
 func newRef() *ref { return &ref{present: map[int]bool{}} }
@@ -201,6 +207,40 @@ type world struct {
 	sets [nSets]*dt.Set[int]
 	refs [nSets]*ref
 	last [nSets][]int // raw-canonical iteration observed last for each set
+	mus  map[int]*sync.Mutex // driver-owned mutexes by lock id
+}
+
+func (w *world) mutex(id int) *sync.Mutex {
+	if id <= 0 {
+		return nil
+	}
+	if w.mus == nil {
+		w.mus = map[int]*sync.Mutex{}
+	}
+	if w.mus[id] == nil {
+		w.mus[id] = &sync.Mutex{}
+	}
+	return w.mus[id]
+}
+
+// lockIdentity answers which driver mutex the methods of set t lock (0 = none of them): for every
+// driver mutex handed to this set so far, the driver holds it and calls Len(); the call blocks
+// exactly when that mutex is the set's lock.
+func (w *world) lockIdentity(t int) int {
+	found := 0
+	for j := 1; j <= 2; j++ {
+		id := 10*t + j
+		mu := w.mus[id]
+		if mu == nil {
+			continue
+		}
+		s := w.sets[t]
+		blocked, _ := heldCall(mu, func() { _ = s.Len() })
+		if blocked && found == 0 {
+			found = id
+		}
+	}
+	return found
 }
 
 func newWorld() *world {
@@ -288,6 +328,10 @@ func (w *world) apply(o Op) (res Res, choice []int, panicked any) {
 		s.Order()
 	case "sync":
 		s.Synchronize()
+	case "withlock":
+		s.WithLock(w.mutex(o.L))
+	case "lockprobe":
+		res = Res{Kind: "len", N: w.lockIdentity(o.T)}
 	case "sortquick", "sortmerge":
 		wasOrdered := rt.ordered
 		if o.Op == "sortquick" {
@@ -420,6 +464,29 @@ func (w *world) expect(o Op, got StepObs) string {
 		}
 	case "sync":
 		rt.sync = true
+		rt.lockOp = "Synchronize"
+		if rt.lock == 0 {
+			rt.lock = o.L
+		}
+	case "withlock":
+		rt.lockOp = "WithLock"
+		switch {
+		case o.L == 0: // nil mutex
+			wantKind = "panic"
+		case rt.lock == 0:
+			rt.lock, rt.sync = o.L, true
+		case rt.lock != o.L: // "cannot override an existing mutex" -- and it must not
+			wantKind = "panic"
+		}
+	case "lockprobe":
+		wantKind = "len"
+		want := 0
+		if rt.lock > 0 {
+			want = rt.lock
+		}
+		if got.Res.Kind == "len" && got.Res.N != want {
+			fail("the set's methods lock driver mutex %d, but the first mutex installed is %d (0 = not a driver mutex): an installed mutex was replaced", got.Res.N, want)
+		}
 	case "sortquick", "sortmerge":
 		lt := ltOf(o.Lt)
 		if rt.ordered {
@@ -479,6 +546,9 @@ func (w *world) expect(o Op, got StepObs) string {
 	case "reset":
 		n := newRef()
 		n.ordered, n.sync = o.Ordered, o.Sync
+		if o.Sync {
+			n.lock, n.lockOp = o.L, "Synchronize"
+		}
 		w.refs[o.T] = n
 		rt = n
 	}
@@ -496,7 +566,7 @@ func (w *world) expect(o Op, got StepObs) string {
 
 var opNames = map[string]string{
 	"add": "Add", "addcheck": "AddCheck", "delete": "Delete", "deletecheck": "DeleteCheck", "check": "Check",
-	"len": "Len", "populate": "Populate", "extend": "Extend", "order": "Order", "sync": "Synchronize",
+	"len": "Len", "populate": "Populate", "extend": "Extend", "order": "Order", "sync": "Synchronize", "withlock": "WithLock", "lockprobe": "LockProbe",
 	"sortquick": "SortQuick", "sortmerge": "SortMerge", "iter": "Iterator", "equal": "Equal", "json": "JSON",
 	"unmarshal": "UnmarshalJSON", "reset": "New",
 }
@@ -557,6 +627,13 @@ func runSeq(c Case) seqResult {
 				mode = w.refs[o.T].mode()
 			}
 			out.sig = "C18:Set." + opNames[o.Op] + ":" + mode
+			if o.Op == "lockprobe" {
+				lop := w.refs[o.T].lockOp
+				if lop == "" {
+					lop = "Synchronize"
+				}
+				out.sig = "C18:Set." + lop + ":mutex-replaced"
+			}
 			out.first = bad
 		}
 	}
@@ -602,7 +679,11 @@ func coqOp(o Op, choice []int) string {
 	case "order":
 		return "OOrder " + t
 	case "sync":
-		return "OSync " + t
+		return fmt.Sprintf("OSync %s %s", t, kit.ZI(o.L))
+	case "withlock":
+		return fmt.Sprintf("OWithLock %s %s", t, kit.ZI(o.L))
+	case "lockprobe":
+		return "OLockProbe " + t
 	case "sortquick":
 		return fmt.Sprintf("OSortQuick %s %s %s", t, kit.ZI(o.Lt), kit.ZListI(choice))
 	case "sortmerge":
@@ -616,7 +697,11 @@ func coqOp(o Op, choice []int) string {
 	case "unmarshal":
 		return fmt.Sprintf("OUnmarshal %s %s", t, optZList(o.Items))
 	case "reset":
-		return fmt.Sprintf("OReset %s %s %s", t, kit.Bool(o.Ordered), kit.Bool(o.Sync))
+		l := 0
+		if o.Sync {
+			l = o.L
+		}
+		return fmt.Sprintf("OReset %s %s %s", t, kit.Bool(o.Ordered), kit.ZI(l))
 	}
 	return "OLen 0"
 }
@@ -678,6 +763,10 @@ func genSeq(r *kit.Rand, id int) Case {
 		case 3:
 			c.Ops = append(c.Ops, Op{Op: "reset", T: t, Ordered: r.Bool(), Sync: true})
 		}
+	}
+	if r.Chance(1, 4) { // a set that gets its mutex from the driver first
+		t := r.Intn(nSets)
+		c.Ops = append(c.Ops, Op{Op: "withlock", T: t, L: 10*t + 1}, Op{Op: "lockprobe", T: t})
 	}
 	n := r.Range(0, 22)
 	if r.Chance(1, 10) {
@@ -761,7 +850,20 @@ func genSeq(r *kit.Rand, id int) Case {
 		case x < 70:
 			c.Ops = append(c.Ops, Op{Op: "order", T: t})
 		case x < 71:
-			c.Ops = append(c.Ops, Op{Op: "sync", T: t})
+			// the mutex slot: Synchronize() / WithLock(m) at arbitrary points (again on a set that
+			// already has a mutex, with the same, another or a nil mutex), then ask which mutex
+			// the set's methods really lock
+			for k, m := 0, r.Range(1, 3); k < m; k++ {
+				switch r.Intn(5) {
+				case 0, 1:
+					c.Ops = append(c.Ops, Op{Op: "sync", T: t})
+				case 2, 3:
+					c.Ops = append(c.Ops, Op{Op: "withlock", T: t, L: 10*t + r.Range(1, 2)})
+				default:
+					c.Ops = append(c.Ops, Op{Op: "withlock", T: t, L: 0})
+				}
+			}
+			c.Ops = append(c.Ops, Op{Op: "lockprobe", T: t})
 		case x < 80:
 			c.Ops = append(c.Ops, Op{Op: sortOp(), T: t, Lt: r.Intn(5)})
 		case x < 83:
@@ -793,7 +895,21 @@ func genSeq(r *kit.Rand, id int) Case {
 			c.Ops = append(c.Ops, Op{Op: "reset", T: t, Ordered: r.Bool(), Sync: r.Chance(1, 3)})
 		}
 	}
+	if r.Chance(1, 3) {
+		c.Ops = append(c.Ops, Op{Op: "lockprobe", T: pickT()})
+	}
+	assignLockIDs(&c)
 	return c
+}
+
+// assignLockIDs gives every mutex that Synchronize() allocates in the case its own (negative) identity.
+func assignLockIDs(c *Case) {
+	for i := range c.Ops {
+		o := &c.Ops[i]
+		if (o.Op == "sync" || (o.Op == "reset" && o.Sync)) && o.L == 0 {
+			o.L = -(i + 1)
+		}
+	}
 }
 
 func shuffle(r *kit.Rand, l []int) []int {
@@ -877,6 +993,7 @@ func genEqual(r *kit.Rand, id int) Case {
 		}
 		c.Ops = append(c.Ops, Op{Op: "equal", T: 0, U: 1})
 	}
+	assignLockIDs(&c)
 	return c
 }
 
@@ -894,7 +1011,7 @@ type hEvent struct {
 }
 
 func genConc(r *kit.Rand, id int) Case {
-	c := Case{ID: id, Kind: "conc", Ordered: r.Bool(), WithLock: r.Chance(1, 3)}
+	c := Case{ID: id, Kind: "conc", Ordered: r.Bool(), WithLock: r.Chance(1, 3), SyncLoop: r.Bool()}
 	c.Pre = genValsDom(r, 3, 2)
 	k := r.Range(2, 3)
 	total := 0
@@ -951,6 +1068,19 @@ func runConc(c Case) []hEvent {
 	var wg sync.WaitGroup
 	var ready atomic.Int64
 	k := int64(len(c.Threads))
+	var stopLoop atomic.Bool
+	loopDone := make(chan struct{})
+	if c.SyncLoop {
+		go func() {
+			defer close(loopDone)
+			for !stopLoop.Load() {
+				s.Synchronize() // "safe to call more than once": must not change the set's mutex
+				runtime.Gosched()
+			}
+		}()
+	} else {
+		close(loopDone)
+	}
 	for tid, ops := range c.Threads {
 		wg.Add(1)
 		go func(tid int, ops []Op) {
@@ -981,6 +1111,8 @@ func runConc(c Case) []hEvent {
 		}(tid, ops)
 	}
 	wg.Wait()
+	stopLoop.Store(true)
+	<-loopDone
 	// final state, observed by the driver after every thread returned
 	e := hEvent{Tid: -1, Op: "len"}
 	e.Inv = clock.Add(1)
@@ -1068,7 +1200,7 @@ func linearize(c Case, hist []hEvent) ([]int, bool) {
 }
 
 func coqLinCase(c Case, hist []hEvent, order []int) string {
-	steps := []string{fmt.Sprintf("(OReset 0 %s true, RUnit)", kit.Bool(c.Ordered))}
+	steps := []string{fmt.Sprintf("(OReset 0 %s (-1)%%Z, RUnit)", kit.Bool(c.Ordered))}
 	for _, v := range c.Pre {
 		steps = append(steps, fmt.Sprintf("(OAdd 0 %s, RUnit)", kit.ZI(v)))
 	}
@@ -1088,6 +1220,187 @@ func coqLinCase(c Case, hist []hEvent, order []int) string {
 		}
 	}
 	return fmt.Sprintf("CLin %s %s", kit.ZI(c.ID), kit.List(steps))
+}
+
+// ---------------------------------------------------------------- deciding "blocked on a mutex" from a goroutine snapshot
+
+//go:noinline
+func probeCallMarker(f func(), done chan struct{}) {
+	defer close(done)
+	defer func() { _ = recover() }()
+	f()
+}
+
+// probeParked: is the goroutine running probeCallMarker parked inside sync.(*Mutex).Lock?
+func probeParked() bool {
+	buf := make([]byte, 1<<19)
+	buf = buf[:runtime.Stack(buf, true)]
+	for _, g := range strings.Split(string(buf), "\n\n") {
+		if strings.Contains(g, "main.probeCallMarker") && strings.Contains(g, "sync.(*Mutex).Lock") {
+			hdr := g
+			if i := strings.Index(g, "\n"); i >= 0 {
+				hdr = g[:i]
+			}
+			if strings.Contains(hdr, "sync.Mutex.Lock") || strings.Contains(hdr, "semacquire") {
+				return true
+			}
+		}
+	}
+	return false
+}
+
+var heldCallMu sync.Mutex // one probe at a time (the snapshot looks for THE probe goroutine)
+
+// heldCall holds mu, runs f in another goroutine and decides by goroutine snapshots (10 s deadline)
+// whether f parked on a mutex (blocked = true) or returned while mu was held (blocked = false).
+// Then mu is released and f is awaited. hung: f neither returned nor parked, or did not return
+// after the release.
+func heldCall(mu *sync.Mutex, f func()) (blocked, hung bool) {
+	heldCallMu.Lock()
+	defer heldCallMu.Unlock()
+	mu.Lock()
+	done := make(chan struct{})
+	go probeCallMarker(f, done)
+	deadline := time.Now().Add(10 * time.Second)
+	for !blocked {
+		select {
+		case <-done:
+			mu.Unlock()
+			return false, false
+		default:
+		}
+		if probeParked() {
+			blocked = true
+		} else if time.Now().After(deadline) {
+			hung = true
+			break
+		} else {
+			time.Sleep(20 * time.Microsecond)
+		}
+	}
+	mu.Unlock()
+	select {
+	case <-done:
+	case <-time.After(10 * time.Second):
+		hung = true
+	}
+	return
+}
+
+// ---------------------------------------------------------------- lock identity: every public method takes the FIRST mutex installed
+
+// lockIDCase: a set gets its mutex m from the driver (WithLock(m)); then Synchronize() / WithLock(other) /
+// WithLock(m) / WithLock(nil) are called on it (the invariant panics of the rejected ones are
+// recovered); afterwards, while the driver holds m, every public method that takes the set's lock
+// must block (decided by goroutine snapshot, 10 s deadline), and while the driver holds the
+// rejected mutex a method must NOT block. Returns the descriptions of the methods that misbehaved.
+func lockIDCase(c Case) (replaced []string, other []string) {
+	m, m2 := &sync.Mutex{}, &sync.Mutex{}
+	s := &dt.Set[int]{}
+	o := &dt.Set[int]{} // an unsynchronized second set
+	if c.Ordered {
+		s.Order()
+		o.Order()
+	}
+	s.WithLock(m)
+	s.Populate(fun.SliceIterator([]int{1, 2, 3}))
+	o.Populate(fun.SliceIterator([]int{1, 2, 3}))
+	tryCall := func(f func()) {
+		defer func() { _ = recover() }()
+		f()
+	}
+	usedOther := false
+	for _, d := range c.Disturb {
+		switch d {
+		case "sync":
+			tryCall(s.Synchronize)
+		case "withlock-other":
+			usedOther = true
+			tryCall(func() { s.WithLock(m2) })
+		case "withlock-same":
+			tryCall(func() { s.WithLock(m) })
+		case "withlock-nil":
+			tryCall(func() { s.WithLock(nil) })
+		}
+	}
+	lt := func(a, b int) bool { return a < b }
+	ctx := context.Background()
+	methods := []struct {
+		name string
+		f    func()
+	}{
+		{"AddCheck", func() { s.AddCheck(7) }},
+		{"Add", func() { s.Add(8) }},
+		{"DeleteCheck", func() { s.DeleteCheck(7) }},
+		{"Delete", func() { s.Delete(8) }},
+		{"Check", func() { s.Check(2) }},
+		{"Len", func() { _ = s.Len() }},
+		{"Order", func() { s.Order() }},
+		{"SortQuick", func() { s.SortQuick(lt) }},
+		{"SortMerge", func() { s.SortMerge(lt) }},
+		{"Producer", func() { _ = s.Producer() }},
+		{"Iterator", func() { _ = drainRaw(s) }},
+		{"Equal", func() { _ = s.Equal(o) }},
+		{"Equal(argument)", func() { _ = o.Equal(s) }},
+		{"Populate", func() { s.Populate(fun.SliceIterator([]int{9})) }},
+		{"Extend", func() { s.Extend(o) }},
+		{"Extend(argument)", func() { o.Extend(s) }},
+		{"MarshalJSON", func() { _, _ = s.MarshalJSON() }},
+		{"UnmarshalJSON", func() { _ = s.UnmarshalJSON([]byte("[5]")) }},
+	}
+	_ = ctx
+	if !c.Ordered { // Order() on a populated unordered set panics after taking the lock; Sort* would make it ordered
+		keep := methods[:0]
+		for _, md := range methods {
+			if md.name != "SortQuick" && md.name != "SortMerge" {
+				keep = append(keep, md)
+			}
+		}
+		methods = keep
+	}
+	for _, md := range methods {
+		curOp.Store("lock identity probe: " + md.name)
+		blocked, hung := heldCall(m, md.f)
+		if hung {
+			other = append(other, md.name+" did not return within 10 s")
+		} else if !blocked {
+			replaced = append(replaced, md.name)
+		}
+	}
+	if usedOther {
+		curOp.Store("lock identity probe: rejected mutex")
+		blocked, hung := heldCall(m2, func() { _ = s.Len() })
+		if blocked || hung {
+			replaced = append(replaced, "Len blocks on the mutex of a REJECTED WithLock")
+		}
+	}
+	return
+}
+
+func execLockID(run *kit.Run, c Case, verbose bool) bool {
+	var replaced, other []string
+	if !withWatchdog(run, c, func() { replaced, other = lockIDCase(c) }) {
+		return true
+	}
+	if verbose {
+		fmt.Printf("lock identity (ordered=%v, after WithLock(m): %v): ran without m: %v; other: %v\n", c.Ordered, c.Disturb, replaced, other)
+	}
+	run.Count(fmt.Sprintf("lockid/disturb=%d", len(c.Disturb)))
+	if len(replaced) > 0 {
+		sig := "C18:Set.Synchronize:mutex-replaced"
+		switch {
+		case len(c.Disturb) == 0:
+			sig = "C18:Set." + strings.TrimSuffix(replaced[0], "(argument)") + ":unlocked"
+		case !strings.Contains(strings.Join(c.Disturb, ","), "sync"):
+			sig = "C18:Set.WithLock:mutex-replaced"
+		}
+		run.OracleFail(c.ID, sig, fmt.Sprintf("set synchronized with WithLock(m), then %v: while the driver held m these calls returned (they do not lock m any more): %v", c.Disturb, replaced), c, replaced)
+	} else if len(other) > 0 {
+		run.OracleFail(c.ID, "C18:Set.LockProbe:hang", strings.Join(other, "; "), c, other)
+	}
+	key, _ := json.Marshal([]any{c.Ordered, c.Disturb})
+	run.Case(c.ID, c, "", "l|"+string(key), false)
+	return len(replaced) > 0
 }
 
 // ---------------------------------------------------------------- lock probe: the producer of a synchronized set runs under the set's mutex
@@ -1154,6 +1467,16 @@ func raceChild(ordered bool) {
 	}
 	// stress part
 	var wg sync.WaitGroup
+	var stop atomic.Bool
+	loopDone := make(chan struct{})
+	go func() {
+		defer close(loopDone)
+		for !stop.Load() {
+			s.Synchronize()
+			runtime.Gosched()
+		}
+	}()
+	defer func() { stop.Store(true); <-loopDone }()
 	for g := 0; g < 2; g++ {
 		wg.Add(1)
 		go func(g int) {
@@ -1332,10 +1655,12 @@ func execSeq(run *kit.Run, c Case, verbose bool) {
 			}
 		case "equal":
 			run.Count(fmt.Sprintf("equal/%v", r.obs[i].Res.B))
-		case "order", "unmarshal":
+		case "order", "unmarshal", "withlock":
 			if r.obs[i].Res.Kind == "panic" {
 				run.Count(o.Op + "/panic")
 			}
+		case "lockprobe":
+			run.Count(fmt.Sprintf("lockprobe/driver-mutex=%v", r.obs[i].Res.N > 0))
 		}
 	}
 	run.Count("seq/ops" + bucket(len(c.Ops)))
@@ -1372,7 +1697,8 @@ func execConc(run *kit.Run, c Case, verbose bool) {
 	} else {
 		term = coqLinCase(c, hist, order)
 	}
-	key, _ := json.Marshal([]any{c.Ordered, c.WithLock, c.Pre, c.Threads})
+	run.Count(fmt.Sprintf("conc/syncloop=%v", c.SyncLoop))
+	key, _ := json.Marshal([]any{c.Ordered, c.WithLock, c.SyncLoop, c.Pre, c.Threads})
 	run.Case(c.ID, c, term, "c|"+string(key), len(hist) > 4)
 }
 
@@ -1447,6 +1773,7 @@ func main() {
 	for _, c := range corpus {
 		c.ID = id
 		id++
+		assignLockIDs(&c)
 		execAny(run, c, false)
 	}
 
@@ -1456,6 +1783,24 @@ func main() {
 		c := Case{ID: id, Kind: "lockprobe", Ordered: ordered}
 		id++
 		if execLockProbe(run, c, false) {
+			probeFailed = true
+		}
+	}
+
+	// every public method takes the first mutex installed, whatever Synchronize()/WithLock() calls follow
+	disturbs := [][]string{{}, {"sync"}, {"withlock-other"}, {"withlock-same"}, {"withlock-nil"}, {"sync", "sync"}, {"withlock-other", "sync"}, {"withlock-same", "withlock-other"}}
+	for k, nl := 0, run.Pick(24, 400); k < nl; k++ {
+		c := Case{ID: id, Kind: "lockid", Ordered: k%2 == 0}
+		id++
+		if k/2 < len(disturbs) {
+			c.Disturb = disturbs[k/2]
+		} else {
+			r := run.Rand.Fork()
+			for j, m := 0, r.Range(1, 4); j < m; j++ {
+				c.Disturb = append(c.Disturb, []string{"sync", "withlock-other", "withlock-same", "withlock-nil"}[r.Intn(4)])
+			}
+		}
+		if execLockID(run, c, false) {
 			probeFailed = true
 		}
 	}
@@ -1475,6 +1820,9 @@ func main() {
 	m := run.Pick(300, 12000)
 	for i := 0; i < m; i++ {
 		c := genConc(run.Rand.Fork(), id)
+		if probeFailed {
+			c.SyncLoop = false // the mutex is known to be replaceable: do not provoke a runtime crash
+		}
 		id++
 		execAny(run, c, false)
 	}
@@ -1513,6 +1861,8 @@ func execAny(run *kit.Run, c Case, verbose bool) {
 		execConc(run, c, verbose)
 	case "lockprobe":
 		execLockProbe(run, c, verbose)
+	case "lockid":
+		execLockID(run, c, verbose)
 	case "racechild":
 		raced, rep := runRaceChild(c.Ordered)
 		if verbose {
